@@ -377,6 +377,48 @@ def sx_int_of_str(s, base=10):
     return SInt(value)
 
 
+def sx_float_of_str(s):
+    """float() of a string with symbolic characters, for fixed-point decimal literals: [blanks][sign]digits[.digits][blanks].
+    Every character is classified by a fork (sign / point / ASCII digit / anything else -> ValueError); the value is the
+    exact decimal value (exact-real model: the nearest double is not taken).  Exponents, underscores, inf/nan and
+    non-ASCII digits are not modelled: a character that could be one of those is Unsupported."""
+    t = s.strip() if isinstance(s, SStr) else s.strip()
+    if isinstance(t, str):
+        return float(t)
+    els = t.el
+    if not els:
+        raise ValueError("could not convert string to float: ''")
+    sign = 1
+    i = 0
+    if _truth(el_eq(els[0], 45)):
+        sign, i = -1, 1
+    elif _truth(el_eq(els[0], 43)):
+        i = 1
+    int_digits, frac_digits, seen_point = [], [], False
+    for e in els[i:]:
+        if _truth(el_eq(e, 46)):
+            if seen_point:
+                raise ValueError("could not convert string to float (two points)")
+            seen_point = True
+            continue
+        isdig = (48 <= e <= 57) if isinstance(e, int) else z3.And(e >= 48, e <= 57)
+        if not _truth(isdig):
+            if isinstance(e, int) and chr(e) in 'eE_infaINFAtyTY':
+                raise Unsupported("float() literal with %r" % chr(e))
+            raise ValueError("could not convert string to float")
+        (frac_digits if seen_point else int_digits).append(e)
+    if not int_digits and not frac_digits:
+        raise ValueError("could not convert string to float")
+    val = z3.RealVal(0)
+    for e in int_digits:
+        val = val * 10 + (z3.ToReal(e - 48) if not isinstance(e, int) else z3.RealVal(e - 48))
+    scale = 1
+    for e in frac_digits:
+        scale *= 10
+        val = val + (z3.ToReal(e - 48) if not isinstance(e, int) else z3.RealVal(e - 48)) / scale
+    return core.SReal(val * sign if sign == -1 else val)
+
+
 # --------------------------------------------------------------------------
 # rendering of symbolic ints
 # --------------------------------------------------------------------------
